@@ -82,11 +82,44 @@ func (s *State) DumpState() {
 	s.cache.DumpState()
 }
 
+// isTombstone tells whether a cached value is the marker of a pending delete
+func isTombstone(value []byte) bool {
+	return bytes.Equal(value, []byte(TOMBSTONE))
+}
+
+// rawCache returns the block cache without its gas wrapper (for lookups that must not be charged)
+func (s *State) rawCache() SessionedDirectStorage {
+	switch c := s.cache.(type) {
+	case *GasStore:
+		return c.SessionedDirectStorage
+	case *NoGasStore:
+		return c.SessionedDirectStorage
+	}
+	return s.cache
+}
+
+// deleted tells whether the key has a pending delete in the tx session or the block cache
+func (s *State) deleted(key StoreKey) bool {
+	if s.txSession != nil {
+		if value, err := s.txSession.Get(key); err == nil {
+			return isTombstone(value)
+		}
+	}
+	if value, err := s.rawCache().Get(key); err == nil {
+		return isTombstone(value)
+	}
+	return false
+}
+
 func (s *State) Get(key StoreKey) ([]byte, error) {
 	if s.txSession != nil {
 		// Get the txSession first
 		result, err := s.txSession.Get(key)
 		if err == nil {
+			// a key deleted in the session reads as absent
+			if isTombstone(result) {
+				return nil, nil
+			}
 			// if got result, return directly
 			return result, err
 		}
@@ -95,6 +128,10 @@ func (s *State) Get(key StoreKey) ([]byte, error) {
 	// Get the cache first
 	result, err := s.cache.Get(key)
 	if err == nil {
+		// a key deleted in this block reads as absent
+		if isTombstone(result) {
+			return nil, nil
+		}
 		// if got result, return directly
 		return result, err
 	}
@@ -118,7 +155,8 @@ func (s *State) Exists(key StoreKey) bool {
 		// check existence in txSession
 		exist := s.txSession.Exists(key)
 		if exist {
-			return exist
+			// a key deleted in the session does not exist
+			return !s.deleted(key)
 		}
 	}
 
@@ -129,7 +167,8 @@ func (s *State) Exists(key StoreKey) bool {
 		return s.cs.Exists(key)
 	}
 
-	return exist
+	// a key deleted in this block does not exist
+	return !s.deleted(key)
 }
 
 func (s *State) Delete(key StoreKey) (bool, error) {
@@ -156,6 +195,9 @@ func (s *State) Iterate(fn func(key []byte, value []byte) bool) (stopped bool) {
 	})
 
 	for _, key := range keys {
+		if s.deleted(key) {
+			continue
+		}
 		value, err := s.Get(key)
 		if err != nil {
 			continue
@@ -176,6 +218,9 @@ func (s *State) IterateRange(start, end []byte, ascending bool, fn func(key, val
 	})
 	//todo: we can't get the key for anything that's only in the cache,
 	for _, key := range keys {
+		if s.deleted(key) {
+			continue
+		}
 		value, err := s.Get(key)
 		if err != nil {
 			continue
